@@ -181,7 +181,12 @@ def _int_list(it, v):
 
 def col_vector(it, o, s, ln, c):
     i = z3.Int("i!mcol")
-    return it.run.alloc(HSeq(z3.Lambda([i], o.arr[s + i][c]), z3.IntVal(0), ln, "Real", nd=True))
+    r = it.run.alloc(HSeq(z3.Lambda([i], o.arr[s + i][c]), z3.IntVal(0), ln, "Real", nd=True))
+    if z3.is_const(o.arr) and z3.is_int_value(z3.simplify(z3.IntVal(0) + s)) and z3.simplify(z3.IntVal(0) + s).as_long() == 0:
+        # a whole-height column of a matrix that is a plain array constant: remembered, so that its extremes can be written
+        # as functions of (matrix, height, column index) without a lambda term (which would be open under a binder)
+        it.run.obj(r).colof = (o.arr, ln, c)
+    return r
 
 
 # ------------------------------------------------------------------------------------------------- reads
@@ -699,6 +704,24 @@ X.Interp.spec_mcount = _spec_mcount
 def _extreme(it, name, seq):
     """np.min / np.max of a 1-D vector: a value bounding every element and attained at some index (n >= 1)"""
     ctx = it.ctx
+    colof = getattr(seq, "colof", None)
+    if colof is not None and z3.is_int_value(z3.simplify(seq.lo)) and z3.simplify(seq.lo).as_long() == 0 and \
+            z3.simplify(seq.hi - seq.lo).eq(z3.simplify(colof[1])):
+        m2, n, c = colof
+        n = z3.simplify(n)
+        f = ctx.uf("col_" + name, m2.sort(), INT, INT, REAL)
+        at = ctx.uf("col_" + name + "_at", m2.sort(), INT, INT, INT)
+        v, w = f(m2, n, c), at(m2, n, c)
+        k, cc = z3.Int("k!ext"), z3.Int("c!ext")
+        # stated for every column at once (the column index may be a bound variable of a clause or of a comprehension)
+        vv, ww = f(m2, n, cc), at(m2, n, cc)
+        bound = (vv <= m2[k][cc]) if name == "min" else (vv >= m2[k][cc])
+        ctx.fact(z3.ForAll([cc, k], z3.Implies(z3.And(k >= 0, k < n), bound)),
+                 key=("col-" + name, m2.sexpr(), n.sexpr()))
+        ctx.fact(z3.ForAll([cc], z3.Implies(n >= 1, z3.And(ww >= 0, ww < n, m2[ww][cc] == vv))),
+                 key=("col-" + name + "-at", m2.sexpr(), n.sexpr()))
+        it.ctx.models.note(it, "axiom:np.min / np.max / np.ptp of a vector (bounds every element, attained at some index)")
+        return v
     i = z3.Int("i!ext")
     arr = seq.arr if z3.is_int_value(z3.simplify(seq.lo)) and z3.simplify(seq.lo).as_long() == 0 else \
         z3.Lambda([i], seq.arr[seq.lo + i])
